@@ -6,7 +6,8 @@
   reuse the `Config` machine (bytes on the wire come from the request builders); the handshake is the
   fault-free path of `Handshake`.  The device carries a static description (`Desc`: per channel the
   type byte, dimension, metadata length and name; the rx padding) which a connect copies into what the
-  handler reports (`World.reported`).
+  handler reports (`World.reported`) — names as the client decodes them: a name that is not valid UTF-8 makes
+  connect raise (`commConnectR`, clean-up of `_start`: nothing is left running), a name ends at its first NUL.
 
   Time is virtual, in tenths of a second, and counts what a call spends waiting for the device: ACK
   waits (`Gen.Comm.ackTimeout…`), the draining polls of connect / disconnect.  Joining a library thread
@@ -14,6 +15,7 @@
   and bounds it separately).
 -/
 import NxsModel.Config
+import NxsModel.Info
 import NxsModel.Gen.Comm
 namespace Nxs
 namespace Lifecycle
@@ -109,8 +111,20 @@ def chinfoFrames : Nat → Nat → List Bytes
 def pyIdx (len : Nat) (c : Int) : Nat :=
   if 0 ≤ c then c.toNat else if -c ≤ len then len - (-c).toNat else len
 
-/-- the static description a connect reads from the device -/
-def describe (w : World) : Reported := ⟨w.dev.en.length, w.flags, w.desc.rxpadding, w.desc.chans⟩
+/-- what `frame_chinfo_decode` makes of a channel's name field: the text up to the first NUL
+    (`_str.decode().split("\x00")[0]`) -/
+def ChanDesc.decoded (c : ChanDesc) : ChanDesc := { c with name := Info.cstr c.name }
+
+/-- the static description a connect reads from the device (names as the client decodes them) -/
+def describe (w : World) : Reported :=
+  ⟨w.dev.en.length, w.flags, w.desc.rxpadding, w.desc.chans.map ChanDesc.decoded⟩
+
+/-- index of the first of the device's `n` channels whose name field the strict UTF-8 decoder rejects
+    (`_str.decode()` raises UnicodeDecodeError: wherever in the field the bad bytes are, also after a NUL) -/
+def badNameIdx (n : Nat) (desc : Desc) : Option Nat :=
+  (desc.chans.take n).findIdx? fun c => !Info.validUtf8 c.name
+
+def badName (w : World) : Option Nat := badNameIdx w.dev.en.length w.desc
 
 /-- `_devinfo_get`: a device with rx padding makes the client reconfigure the interface (once: the
     interface keeps its padding) and write that many zero bytes -/
@@ -128,6 +142,24 @@ def commConnect (w : World) : World :=
              intfPad := if w.desc.rxpadding > 0 then w.desc.rxpadding else w.intfPad,
              hasDev := true, reported := some (describe w),
              cli := some (Client.init w.dev w.flags), commStarted := true }
+
+/-- `CommHandler.connect()` in front of a device whose channel `k` has a name that is not UTF-8: the interface is
+    started, the stop request sent, the link drained, the receive thread started, the common info read (and the
+    interface's padding set), the channel infos 0..k requested; decoding the k-th answer raises, the clean-up
+    handler of `_start` stops the receive thread and the interface again and the exception propagates: the
+    handler stays stopped, without description, its configuration state (`_channels`) untouched -/
+def commConnectFail (w : World) (k : Nat) : World :=
+  { w with devStarted := false,
+           log := w.log ++ okFrame (frameStart false) ++ okFrame frameCmninfo ++ padWrite w ++ chinfoFrames 0 (k + 1),
+           time := w.time + drain + drain,
+           intfPad := if w.desc.rxpadding > 0 then w.desc.rxpadding else w.intfPad }
+
+/-- `CommHandler.connect()` with its result: raises UnicodeDecodeError when a channel name is not UTF-8 -/
+def commConnectR (w : World) : World × Res :=
+  if w.commStarted then (w, .ok)
+  else match badName w with
+    | none => (commConnect w, .ok)
+    | some k => (commConnectFail w k, .raised .unicodeError)
 
 /-- `CommHandler.disconnect()` -/
 def commDisconnect (w : World) : World :=
@@ -191,8 +223,10 @@ def step (w : World) (call : Call) (a : Ans := {}) : World × Res :=
   | .connect =>
     if w.connected then (w, .ok)
     else
-      let w1 := commConnect w
-      ({ w1 with subs := List.replicate w1.dev.en.length [], connected := true }, .ok)
+      -- an exception raised by `_comm.connect()` propagates: no subscriber lists, `_connected` stays False
+      match commConnectR w with
+      | (w1, .ok) => ({ w1 with subs := List.replicate w1.dev.en.length [], connected := true }, .ok)
+      | (w1, r) => (w1, r)
   | .disconnect =>
     if w.connected then
       let w1 := streamStop w a
@@ -234,7 +268,7 @@ def step (w : World) (call : Call) (a : Ans := {}) : World × Res :=
 /-- one public call of a bare `CommHandler` -/
 def commStep (w : World) (call : CommCall) (a : Ans := {}) : World × Res :=
   match call with
-  | .connect => (commConnect w, .ok)
+  | .connect => commConnectR w
   | .disconnect => (commDisconnect w, .ok)
   | .streamStart => let r := commStartReq w true a.st; (r.1, .ack r.2.1 r.2.2)
   | .streamStop => let r := commStartReq w false a.st; (r.1, .ack r.2.1 r.2.2)
